@@ -97,6 +97,42 @@ func hiMinusLow(h, l ssa.Value, depth int) int64 {
 			return b
 		}
 	case *ssa.Phi:
+		// an explicit clip `m := a; if b < m { m = b }` is min(a, b)
+		if len(x.Edges) == 2 {
+			blk := x.Block()
+			for i := 0; i < 2; i++ {
+				then, other := blk.Preds[i], blk.Preds[1-i]
+				if len(then.Preds) != 1 || then.Preds[0] != other || len(other.Instrs) == 0 {
+					continue
+				}
+				iff, ok := other.Instrs[len(other.Instrs)-1].(*ssa.If)
+				if !ok || other.Succs[0] != then {
+					continue
+				}
+				cmp, ok := iff.Cond.(*ssa.BinOp)
+				if !ok {
+					continue
+				}
+				T, E := x.Edges[i], x.Edges[1-i]
+				same := func(a, b ssa.Value) bool { // no CSE in go/ssa: len(x) evaluated twice is two values
+					if a == b {
+						return true
+					}
+					la, ok1 := lenOfVal(a)
+					lb, ok2 := lenOfVal(b)
+					return ok1 && ok2 && la == lb
+				}
+				isMin := ((cmp.Op == token.LSS || cmp.Op == token.LEQ) && same(cmp.X, T) && same(cmp.Y, E)) ||
+					((cmp.Op == token.GTR || cmp.Op == token.GEQ) && same(cmp.X, E) && same(cmp.Y, T))
+				if isMin {
+					a, b := hiMinusLow(T, l, depth+1), hiMinusLow(E, l, depth+1)
+					if a < b {
+						return a
+					}
+					return b
+				}
+			}
+		}
 		m := int64(0)
 		for _, e := range x.Edges {
 			v := hiMinusLow(e, l, depth+1)
